@@ -183,8 +183,10 @@ def convert_modes():
 def schema_to_code_mutates():
     """does schema_to_struct_code apply an in-place mutator to an object obtained from its `schema` parameter
     without copying it first?"""
-    return fn_mutates_param("json_schema/json_schema_mapping.py", "schema_to_struct_code",
-                            {"schema", "definitions_schema"})
+    # only the schema -> code direction (in the other direction `definitions` is a documented accumulator)
+    to_code = lambda n: any(t in n for t in ("to_code", "to_struct_code", "field_code", "from_schema", "from_json_schema"))
+    return module_mutates_params("json_schema/json_schema_mapping.py",
+                                 {"schema", "definitions_schema", "definitions"}, to_code)
 
 
 def mapper_arg_mutates(fn_name):
@@ -200,6 +202,23 @@ def fn_mutates_param(rel, fn_name, params):
     fn = _find_fn(_parse(rel), fn_name)
     if fn is None:
         return None
+    return _fn_node_mutates(fn, params)
+
+
+def module_mutates_params(rel, param_names, name_filter=None):
+    """the same analysis over EVERY function / method of a module that has one of the named parameters (the
+    schema -> code direction hands the caller's schema and definitions down through many small functions)"""
+    tree = _parse(rel)
+    seen = None
+    for fn in [n for n in ast.walk(tree) if isinstance(n, ast.FunctionDef)]:
+        ps = {a.arg for a in fn.args.posonlyargs + fn.args.args + fn.args.kwonlyargs} & set(param_names)
+        if not ps or (name_filter and not name_filter(fn.name)):
+            continue
+        seen = bool(seen) or _fn_node_mutates(fn, ps)
+    return seen
+
+
+def _fn_node_mutates(fn, params):
     mutated = False
     tainted2 = set()
     for st in _linear(fn):
@@ -466,7 +485,10 @@ def probe_all():
             rows.append((op, "any", "none", probe_row(op, "any", "none", impl, ["__none__"])))
         if op == "schemaToCode" and c.get("cls", {}).get("name") == "Dflt":
             impl = S.run_impl(c)
+            # worst case over every schema -> code witness (inline nested objects with defaults, definitions, raw schemas)
+            impls = [S.run_impl(c2) for c2 in S.directed_cases() if c2["op"] == "schemaToCode"]
             r = probe_row(op, "schema", "any", impl, ["schema"])
+            r["argMutated"] = any(not i.get("args_same", True) for i in impls if "unbuildable" not in i)
             r["returns"] = "scalar" if impl.get("ok") else "raises"
             rows.append((op, "schema", "any", r))
             rows.append((op, "root", "none", dict(r)))
